@@ -1,6 +1,7 @@
 #!/usr/bin/env python3
-"""seed_import.py <Pxx> <k> <results.json> [<earlier results.json>]  — keep a confirmed seeded change under seeded/<Pxx>-<k>/
-(patch.diff, the demonstration, meta.json) and regenerate seeded/README.md."""
+"""seed_import.py <Pxx> <k> <results.json> [<source dir> [<id> [<results of the earlier version of the checks>]]]
+— keep a confirmed seeded change under seeded/<id>/ (default <Pxx>-<k>; patch.diff, the demonstration, meta.json) and
+regenerate seeded/README.md."""
 import json, os, shutil, sys, glob
 
 # seeded changes that a first version of the checks did NOT catch, and what was strengthened for each (DESIGN 0.5)
@@ -21,9 +22,10 @@ MISSED_AT_FIRST = {
 }
 
 
-def imp(pid, k, resfile, earlier=None):
-    src = "/tmp/mut/%s/MUTANT%s" % (pid, k)
-    dst = "/verif/seeded/%s-%s" % (pid, k)
+def imp(pid, k, resfile, src=None, key=None, earlier=None):
+    src = src or "/tmp/mut/%s/MUTANT%s" % (pid, k)
+    key = key or "%s-%s" % (pid, k)
+    dst = "/verif/seeded/%s" % key
     res = json.load(open(resfile))
     if not (res.get("demo_clean_exit") == 0 and res.get("demo_mutant_exit") not in (0, None) and res.get("suite_passes")):
         print("NOT CONFIRMED", pid, k, res.get("demo_clean_exit"), res.get("demo_mutant_exit"), res.get("suite_passes")); return
@@ -37,14 +39,16 @@ def imp(pid, k, resfile, earlier=None):
         else:
             shutil.copy(s, dst)
     readme = open(os.path.join(src, "README.txt")).read() if os.path.exists(os.path.join(src, "README.txt")) else ""
-    meta = {"id": "%s-%s" % (pid, k), "breaks_property": pid, "written_by": "independent sub-agent given only the property text and a scratch worktree",
+    meta = {"id": key, "breaks_property": pid, "written_by": "independent sub-agent given only the property text and a scratch worktree",
             "needs_to_manifest": readme.strip()[:1500],
             "confirmed": {"demo_on_clean_tree_exit": res["demo_clean_exit"], "demo_on_changed_tree_exit": res["demo_mutant_exit"],
                           "repository_suite_passes_with_change": res["suite_passes"], "diffstat": res.get("diffstat")},
             "checks_run": {p: {"detected": c["detected"], "exit": c["exit"], "wall_s": c["wall_s"], "first_violation": (c["first"][1].strip()[:400] if len(c["first"]) > 1 else "")}
                            for p, c in res.get("checks", {}).items()},
             "how_run": "python3 mutcheck.py <dir> <properties>: scratch worktree of /repo HEAD, git apply patch.diff, run.sh on clean and changed tree, cmake+ctest on the changed tree, check.py check <P> --tier quick with VERIF_REPO=<changed tree>"}
-    key = "%s-%s" % (pid, k)
+    if earlier and os.path.exists(earlier):
+        old = json.load(open(earlier))
+        meta["checks_run_before_strengthening"] = {p: {"detected": c2["detected"], "exit": c2["exit"]} for p, c2 in old.get("checks", {}).items()}
     if key in MISSED_AT_FIRST:
         meta["missed_at_first"] = MISSED_AT_FIRST[key]
     json.dump(meta, open(os.path.join(dst, "meta.json"), "w"), indent=1)
@@ -65,5 +69,6 @@ def readme():
 
 if __name__ == "__main__":
     if len(sys.argv) >= 4:
-        imp(sys.argv[1], sys.argv[2], sys.argv[3], sys.argv[4] if len(sys.argv) > 4 else None)
+        a = sys.argv[1:] + [None] * 3
+        imp(a[0], a[1], a[2], a[3], a[4], a[5])
     readme()
